@@ -115,4 +115,107 @@ theorem history_free (D : Digests) (k : AuthKey) (m : V3Msg) (bm1 bm2 : Nat) (d 
 example : Digests.WF ⟨fun _ => List.replicate 16 0, fun _ => List.replicate 20 0⟩ :=
   ⟨fun _ => by simp, fun _ => by simp⟩
 
+/-! ## The key a session signs with always has the digest's key length
+
+(the hypothesis `key.length = alg.keySize` of `auth_wire` and of `C03.wire_v3`, discharged for every
+session the constructor or `set_keys` can produce) -/
+
+/-- an authentication key state whose key has the length its digest prescribes -/
+def Sized (k : AuthKey) : Prop := ∀ alg key, k = .digest alg key → key.length = alg.keySize
+
+theorem asLocalized_sized (alg : AuthAlg) (key : Bytes) (k : AuthKey) (h : asLocalized alg key = .ok k) :
+    Sized k := by
+  unfold asLocalized at h
+  obtain ⟨c, hc, h⟩ := Outcome.bind_eq_ok h
+  simp only [Outcome.pure_eq, Outcome.ok.injEq] at h
+  unfold cloneFromSlice at hc
+  split at hc
+  · rename_i hl
+    simp only [Outcome.ok.injEq] at hc
+    subst hc; subst h
+    intro a k' he
+    cases he
+    exact hl
+  · cases hc
+
+theorem asMaster_sized (D : Digests) (alg : AuthAlg) (key loc : Bytes) (k : AuthKey)
+    (h : asMaster D alg key loc = .ok k) : Sized k := by
+  unfold asMaster at h
+  obtain ⟨out, _, h⟩ := Outcome.bind_eq_ok h
+  exact asLocalized_sized alg out k h
+
+theorem asPassword_sized (D : Digests) (alg : AuthAlg) (pw loc : Bytes) (k : AuthKey)
+    (h : asPassword D alg pw loc = .ok k) : Sized k := by
+  unfold asPassword at h
+  obtain ⟨m, _, h⟩ := Outcome.bind_eq_ok h
+  exact asMaster_sized D alg m loc k h
+
+/-- **C09.key_sized**: whatever `as_key_type` accepts (password, master or localized key of either
+digest, any engine id) leaves a key of exactly the digest's key length in place -/
+theorem asKeyType_sized (D : Digests) (k0 : AuthKey) (code : Nat) (key eng : Bytes) (k : AuthKey)
+    (h : asKeyType D k0 code key eng = .ok k) : Sized k := by
+  unfold asKeyType at h
+  cases k0 with
+  | noAuth =>
+    simp only [Outcome.ok.injEq] at h
+    subst h
+    intro a k' he; cases he
+  | digest alg old =>
+    simp only at h
+    split at h
+    · split at h
+      · cases h
+      · exact asPassword_sized D alg key eng k h
+    · split at h
+      · exact asMaster_sized D alg key eng k h
+      · split at h
+        · split at h
+          · cases h
+          · exact asLocalized_sized alg key k h
+        · cases h
+
+theorem v3Keys_sized (D : Digests) (eng : Bytes) (aalg : Nat) (akey : Bytes) (palg : Nat) (pkey : Bytes)
+    (seed : Nat) (a : AuthKey) (pk : PrivKey) (h : v3Keys D eng aalg akey palg pkey seed = .ok (a, pk)) :
+    Sized a := by
+  unfold v3Keys at h
+  obtain ⟨a0, _, h⟩ := Outcome.bind_eq_ok h
+  obtain ⟨a1, ha1, h⟩ := Outcome.bind_eq_ok h
+  obtain ⟨p0, _, h⟩ := Outcome.bind_eq_ok h
+  have hs := asKeyType_sized D a0 aalg akey eng a1 ha1
+  split at h
+  · obtain ⟨q0, _, h⟩ := Outcome.bind_eq_ok h
+    obtain ⟨q1, _, h⟩ := Outcome.bind_eq_ok h
+    obtain ⟨p1, _, h⟩ := Outcome.bind_eq_ok h
+    simp only [Outcome.pure_eq, Outcome.ok.injEq, Prod.mk.injEq] at h
+    rw [← h.1]; exact hs
+  · simp only [Outcome.pure_eq, Outcome.ok.injEq, Prod.mk.injEq] at h
+    rw [← h.1]; exact hs
+
+/-- **C09.session_key_sized**: a session the constructor returns signs with a key of the right length -/
+theorem new_sized (D : Digests) (eng user : Bytes) (aalg : Nat) (akey : Bytes) (palg : Nat) (pkey : Bytes)
+    (seed : Nat) (s : V3Session) (h : V3Session.new D eng user aalg akey palg pkey seed = .ok s) :
+    Sized s.authKey := by
+  unfold V3Session.new at h
+  obtain ⟨r, hr, h⟩ := Outcome.bind_eq_ok h
+  obtain ⟨a, pk⟩ := r
+  simp only [Outcome.pure_eq, Outcome.ok.injEq] at h
+  rw [← h]
+  exact v3Keys_sized D eng aalg akey palg pkey seed a pk hr
+
+/-- and `set_keys` keeps it so, whether it succeeds (new key) or fails (old key kept) -/
+theorem setKeys_sized (D : Digests) (s : V3Session) (user : Bytes) (aalg : Nat) (akey : Bytes) (palg : Nat)
+    (pkey : Bytes) (seed : Nat) (hs : Sized s.authKey) :
+    Sized (s.setKeys D user aalg akey palg pkey seed).1.authKey := by
+  unfold V3Session.setKeys
+  simp only
+  cases hk : v3Keys D s.engineId aalg akey palg pkey seed with
+  | ok r =>
+    obtain ⟨a, pk⟩ := r
+    exact v3Keys_sized D s.engineId aalg akey palg pkey seed a pk hk
+  | err e => exact hs
+  | panic w => exact hs
+
+example : Sized (.digest .md5 (List.replicate 16 7)) := by
+  intro a k h; cases h; rfl
+
 end GufoSnmp.C09
